@@ -115,7 +115,47 @@ def implPermits (cfg : Cfg) (right : List Char) (admin : Bool) (path : List Char
   let p := trim cfg.isSpace path
   ms.any (fun m => m.matches cfg p)
 
-/-! ASCII instance used by the driver -/
+/-! ### the user: two rights (`User.init`), `ValidatePermission` -/
+
+/-- `AccessRight`: PullRight = 1, PushRight = 2; `other` is any other value of the int type -/
+inductive AccessRight where
+  | pull | push | other
+  deriving Repr, DecidableEq
+
+/-- the configured fields of `auth.User` that matter here -/
+structure User where
+  admin : Bool
+  pull : List Char   -- PullAccess
+  push : List Char   -- PushAccess
+  deriving Repr, DecidableEq
+
+/-- the matcher slices `User.init` builds (both reset first, then `initMatchers` per right; an
+    administrator's empty right was replaced by "*" before) -/
+structure UserM where
+  pushMatchers : List Matcher
+  pullMatchers : List Matcher
+
+def userInit (cfg : Cfg) (u : User) : UserM :=
+  { pushMatchers := initMatchers cfg (effectiveRight u.admin u.push)
+    pullMatchers := initMatchers cfg (effectiveRight u.admin u.pull) }
+
+/-- ValidatePermission: the `switch right` (no matchers for a value that is neither right), the
+    `matchers == nil` exit (a slice nothing was appended to is nil), TrimSpace, first match wins -/
+def validatePermission (cfg : Cfg) (m : UserM) (path : List Char) (right : AccessRight) : Bool :=
+  let ms := match right with
+    | .push => m.pushMatchers
+    | .pull => m.pullMatchers
+    | .other => []
+  if ms.isEmpty then false
+  else
+    let p := trim cfg.isSpace path
+    ms.any (fun mt => mt.matches cfg p)
+
+/-- a user as saved (`User.init` / `CopyFrom`), then `ValidatePermission` -/
+def implValidate (cfg : Cfg) (u : User) (path : List Char) (right : AccessRight) : Bool :=
+  validatePermission cfg (userInit cfg u) path right
+
+/-! ASCII instance (used by the C11 model; the C16 driver uses `goCfg`, Model/PathMatchInst.lean) -/
 def asciiSpace (c : Char) : Bool :=
   c = ' ' || c = '\t' || c = '\n' || c = '\r' || c = Char.ofNat 11 || c = Char.ofNat 12
 
